@@ -207,7 +207,13 @@ impl RecGen {
         // rows and lines cross the 4 KiB / 8 KiB buffer sizes used along the way
         if self.max_len >= 150 && !out.is_empty() && !many && rng.chance(1, 16) {
             let i = rng.usize(0, out.len() - 1);
-            let len = rng.usize(1500, 9000);
+            // mostly a few kb; one time in five beyond 16 KiB (slice / chunk sizes
+            // of 2^14 are a natural choice for "process long records in pieces")
+            let len = if rng.chance(1, 5) {
+                rng.usize(16385, 42000)
+            } else {
+                rng.usize(1500, 9000)
+            };
             let alpha = ALPHAS[rng.weighted(&self.alpha_w)];
             out[i].seq = gen_seq(rng, len, alpha);
         }
